@@ -1973,7 +1973,7 @@ class C04(Prop):
             "analyses; correspondence one-sided; oracle = FIFO-under-supply (event source) and a ROS 2 executor simulation (timers first, ready "
             "set refreshed only when empty, non-preemptive) under the worst-case and random budget placements with synchronous and shifted "
             "releases; non-trivial = distinct query whose result is not Ok(0)")
-    proof_status = "full for the abstract dispatcher class: event source, timer, polling-point callback and processing chain proved sound under every budget placement (Props/C04.v); membership of the real executor in the class is modelled, not verified"
+    proof_status = "full: event source, timer, polling-point callback and processing chain proved sound under every budget placement for an abstract dispatcher class AND for every run of the operational executor models Spec/Executor.v / ExecutorChains.v (proved members of the class); that rclcpp behaves like these models is modelled, not verified"
     def run(self, ctx):
         rng = ctx.rng
         cases = []
